@@ -112,7 +112,9 @@ class Searches:
         elif method == PathSearchMethods.REGEX:
             try:
                 matcher = re.compile(needle)
-            except re.error as wrap_ex:
+            except (re.error, OverflowError, RecursionError) as wrap_ex:
+                # e.g. a repetition count beyond the engine's limit raises
+                # OverflowError, not re.error
                 raise YAMLPathException(
                     "Invalid Regular Expression, {}".format(wrap_ex),
                     "=~/{}/".format(needle)
